@@ -22,7 +22,7 @@ import contextlib
 import enum
 import logging
 import sys
-from collections.abc import AsyncIterator
+from collections.abc import AsyncGenerator, AsyncIterator
 from typing import cast
 
 import aiohttp
@@ -203,6 +203,7 @@ async def continuous_watch(
             if raw_type == 'ERROR' and cast(bodies.RawError, raw_object)['code'] == 410:
                 where = f'in {namespace!r}' if namespace is not None else 'cluster-wide'
                 logger.debug(f"Restarting the watch-stream for {resource} {where}.")
+                await stream.aclose()  # or its inactivity timeout stays armed until garbage-collected.
                 return  # out of the regular stream, to the infinite stream.
 
             # Other watch errors should be fatal for the operator.
@@ -229,7 +230,7 @@ async def watch_objs(
         namespace: references.Namespace,
         since: str | None = None,
         operator_pause_waiter: aiotasks.Future,
-) -> AsyncIterator[bodies.RawInput]:
+) -> AsyncGenerator[bodies.RawInput, None]:
     """
     Watch objects of a specific resource type.
 
